@@ -1043,6 +1043,14 @@ def r_cid_format(model, rep):
         for hack in (False, True):
             # the documented RHEL-5 hack: every condition other than is_layered guards only that extra part
             vals = facts.value_under(cx, facts.atoms_decider({layered_t: layered}, default=hack), past_refusals=True)
+            stored = [x for x in vals if x[0] != "fmt" and T.contains(x, lambda y: y == A("compose", "id"))]
+            if stored:
+                # the id handed out is (or can be) the one stored earlier: after a respin, a promotion or a version bump it
+                # no longer encodes the compose's current date, type and respin
+                rep.ob("R-CID-FORMAT", "create_compose_id:computed-from-current-fields", False, site=cx.site(f.node),
+                       msg="create_compose_id can return the stored compose.id (%s) instead of the id built from the current "
+                           "release, date, type and respin" % ", ".join(T.show(x)[:80] for x in stored))
+                return
             if len(vals) != 1 or vals[0][0] != "fmt":
                 raise AnalysisError("create_compose_id: cannot evaluate the result for layered=%s hack=%s: %s" % (
                     layered, hack, [T.show(x)[:100] for x in vals]))
